@@ -27,6 +27,12 @@ inductive Panic where
   | unexpectedType
 deriving Repr, DecidableEq
 
+instance {ε β : Type} [DecidableEq ε] [DecidableEq β] : DecidableEq (Except ε β)
+  | .ok a, .ok b => if h : a = b then isTrue (h ▸ rfl) else isFalse (fun e => h (Except.ok.inj e))
+  | .error a, .error b => if h : a = b then isTrue (h ▸ rfl) else isFalse (fun e => h (Except.error.inj e))
+  | .ok _, .error _ => isFalse (fun e => nomatch e)
+  | .error _, .ok _ => isFalse (fun e => nomatch e)
+
 /-! ## The view types (bindings/src/model.rs) -/
 
 /-- `model::Value` of the bindings -/
